@@ -432,6 +432,11 @@ pub fn modulus_value(t: &mut Tape, n: usize, odd_only: bool) -> (Modulus, Limbs,
             return (Modulus::of(w.f, "m: worst-case divstep pair", vec![]), al, "a: worst-case divstep pair (beam search)");
         }
     }
+    if t.chance(1, 16) {
+        let m = sparse62(t, n, true);
+        let a = sparse62(t, n, false);
+        return (Modulus::of(m, "m: sparse 62-bit windows", vec![]), limbs_exact(&a, n), "a: sparse 62-bit windows");
+    }
     let md = modulus(t, n, odd_only);
     let (al, acl) = value(t, n, &md);
     (md, al, acl)
@@ -451,6 +456,16 @@ pub fn modulus_residue(t: &mut Tape, n: usize) -> (Modulus, Limbs, &'static str)
             }
         }
     }
+    if t.chance(1, 16) {
+        // the Montgomery representation (what safegcd sees) is sparse in 62-bit windows
+        let m = sparse62(t, n, true);
+        let g = sparse62(t, n, false) % &m;
+        let r = pow2(64 * n as u64) % &m;
+        if let Some(rinv) = modinv(&r, &m) {
+            let a = (&g * rinv) % &m;
+            return (Modulus::of(m, "m: sparse 62-bit windows", vec![]), limbs_exact(&a, n), "a: Montgomery representation sparse in 62-bit windows");
+        }
+    }
     let md = modulus(t, n, true);
     let (al, acl) = residue_value(t, n, &md);
     (md, al, acl)
@@ -464,5 +479,31 @@ pub fn gcd_pair_w(t: &mut Tape, n: usize) -> (Limbs, Limbs, &'static str) {
             return if t.bool() { (fl, gl, "worst-case divstep pair") } else { (gl, fl, "worst-case divstep pair") };
         }
     }
+    if t.chance(1, 16) {
+        let (ox, oy) = (t.bool(), t.bool());
+        let (x, y) = (sparse62(t, n, ox), sparse62(t, n, oy));
+        return (limbs_exact(&x, n), limbs_exact(&y, n), "sparse 62-bit windows");
+    }
     gcd_pair(t, n)
+}
+
+/// A value whose 62-bit windows (the limb size of the unsaturated safegcd representation) are all
+/// non-zero but tiny: sum of c_i * 2^(62 i), c_i in 1..=15 (top window possibly larger). Such a value has
+/// a large bit length but almost empty limbs in the 62-bit representation — a bit-length estimate
+/// that looks at windows instead of the whole number goes wrong here (seeded change C10-I, round 5).
+pub fn sparse62(t: &mut Tape, n: usize, odd: bool) -> BigUint {
+    let windows = ((64 * n) / 62).max(1);
+    let used = match t.weighted(&[3, 1]) {
+        0 => windows,
+        _ => t.usize_in(1, windows),
+    };
+    let mut v = BigUint::zero();
+    for i in 0..used {
+        let c = 1 + t.below(15);
+        v += BigUint::from(c) << (62 * i);
+    }
+    if odd {
+        v |= BigUint::one();
+    }
+    v
 }
